@@ -169,6 +169,11 @@ func snapEvent(e *log.Event) RecEvent {
 		Tag: e.Tag, Ctx: e.CtxString, Fields: buf.String(),
 	}
 	re.ID = fieldString(e.Fields, "id")
+	if re.ID == "" {
+		if m := idInLine.FindStringSubmatch(re.Fields); m != nil {
+			re.ID = m[1]
+		}
+	}
 	return re
 }
 
